@@ -38,6 +38,7 @@ namespace Gotlcp.Model.Parsers
 inductive Why
   | ckx | skx | certs | fmt | nodec | sigkey | verify | enckey | noke | lib
   | badmac | overflow | short | version | first | unexpected | toolong | bounds
+  | stuck   -- a loop of the model made no progress (proved unreachable)
   deriving DecidableEq, Repr, Inhabited
 
 def Why.name : Why → String
@@ -45,6 +46,7 @@ def Why.name : Why → String
   | .sigkey => "sigkey" | .verify => "verify" | .enckey => "enckey" | .noke => "noke" | .lib => "lib"
   | .badmac => "badmac" | .overflow => "overflow" | .short => "short" | .version => "version"
   | .first => "first" | .unexpected => "unexpected" | .toolong => "toolong" | .bounds => "bounds"
+  | .stuck => "stuck"
 
 /-- outcome of a modelled Go function: value, returned error, or run-time panic -/
 inductive Outcome (α : Type)
